@@ -262,7 +262,7 @@ def _generate_case(fa, c, raw, n, seed, generate_many, generate_one, validate):
             vals = list(generate_many(raw, n))
         c["res"] = {"ok": True, "values": [proj.pv(v) for v in vals]}
     except RecursionError as e:
-        c["res"] = {"ok": False, "exc": proj.pexc(e)["exc"]}
+        c["res"] = {"ok": False, "exc": proj.pexc(e)["exc"], "scripted": bool(c["script"])}
         return c
     except Exception as e:  # noqa: BLE001
         c["res"] = {"ok": False, "exc": proj.pexc(e)["exc"], "msg": proj.cps(str(e)[:100])}
@@ -306,6 +306,9 @@ def run_c20(ctx, fa):
         c = generate_case(fa, "g%d" % len(cases), raw, rnd.choice([-1, 0, 1, 2, 3, 17 if len(cases) % 9 == 0 else 2]), rnd.randint(0, 2 ** 32), script)
         c["nodes"] = gen.count_nodes(ir)
         c["recursive_through_collection"] = rec_through_collection(ir, g)
+        c["through_collection"] = bool(c["recursive_through_collection"])
+        c["no_finite_value"] = not has_finite_value(ir, g)
+        c["uuid_before_stringlike"] = uuid_before_stringlike(ir, g)
         cases.append(c)
     ctx.rule = ("seeded valid schemas (logical types, by-name and recursive references, every top-level kind) x n in {generate_one, 0, 1, 2, 3, 17} x "
                 "random.seed states and scripted adversarial states of the random source (every bounded draw at its lower / upper bound); every value must conform per AvroValue!Conforms, validate, be written by the schemaless and container writers "
@@ -334,6 +337,51 @@ def rec_through_collection(ir, g):
     return walk(ir, [], False)
 
 
+def has_finite_value(ir, g):
+    """Least fixed point: can the type be instantiated with a finite value?"""
+    ok = set()
+    changed = True
+
+    def fin(t, stack):
+        k = t["k"]
+        if k == "ref":
+            return t["full"] in ok
+        if k == "record":
+            return all(fin(f["type"], stack) for f in t["fields"])
+        if k in ("array", "map"):
+            return True          # the empty collection (gen_data, though, always emits 10 elements: covered by the recorded finding)
+        if k == "union":
+            return any(fin(b, stack) for b in t["br"])
+        return True
+    while changed:
+        changed = False
+        for full, d in g.defs.items():
+            if full not in ok and d["k"] == "record" and all(fin(f["type"], ()) for f in d["fields"]):
+                ok.add(full)
+                changed = True
+            elif full not in ok and d["k"] != "record":
+                ok.add(full)
+                changed = True
+    return fin(ir, ())
+
+
+def uuid_before_stringlike(ir, g):
+    """A union with a string/uuid branch followed by an enum or string branch: a generated symbol/string is written as a 'uuid'."""
+    from . import p_resolve
+    for _, _, n in p_resolve.positions(ir):
+        if n["k"] == "union":
+            seen_uuid = False
+            for b in n["br"]:
+                rb = g.resolve(b)
+                if rb["k"] == "prim" and rb["name"] == "string" and rb.get("lt") == "uuid":
+                    seen_uuid = True
+                elif seen_uuid and (rb["k"] == "enum" or (rb["k"] == "prim" and rb["name"] == "string")):
+                    return True
+    return False
+
+
 def sig_c20(c, clause):
     exc = c.get("res", {}).get("exc", [""])
-    return {"exc": exc[0] if exc else "", "recursive_through_collection": bool(c.get("recursive_through_collection"))}
+    if clause == "C20.generate":
+        return {"exc": exc[0] if exc else "", "recursive_through_collection": bool(c.get("recursive_through_collection"))}
+    return {"uuid_before_stringlike": bool(c.get("uuid_before_stringlike"))}
